@@ -66,6 +66,8 @@ func c13Bases() []c13Base {
 	out = append(out, mk("root", func(c *refcfg.CertCfg) { c.Issuer = "" }))
 	out = append(out, mk("alias", func(c *refcfg.CertCfg) { c.Alias = "my-entity" }))
 	out = append(out, mk("serial", func(c *refcfg.CertCfg) { c.Serial = refcfg.I64(99) }))
+	// an entity that is expired on purpose (its certificate is expired the moment it is issued)
+	out = append(out, mk("expired-by-design", func(c *refcfg.CertCfg) { c.Validity = &refcfg.Validity{From: "2001-01-01", Until: "2002-02-02"} }))
 	// integers that a float64 cannot tell from their neighbours
 	out = append(out, mk("serial-above-2^53", func(c *refcfg.CertCfg) { c.Serial = refcfg.I64(1311768467463790321) }))
 	out = append(out, mk("serial-near-2^63", func(c *refcfg.CertCfg) { c.Serial = refcfg.I64(9223372036854775805) }))
@@ -659,7 +661,15 @@ func c13OneEdit(x *engine.Ctx, baseIdx int, base c13Base, h0 string, w0 *simfs.W
 	// written (a profile-only edit leaves the certificate's file older than its artifact), once with a
 	// new modification time and once with one older than every artifact (a prepared variant moved in
 	// with its time stamp kept): change detection is by content, not by time.
-	for _, old := range []bool{false, true} {
+	for vi, old := range []bool{false, true, false, false} {
+		// the third and fourth pass repeat the new-time variant with generate-expired (and all four reasons) switched on as well
+		strat := drive.Changed
+		switch vi {
+		case 2:
+			strat = drive.Changed | drive.Expired
+		case 3:
+			strat = drive.Changed | drive.Expired | drive.Missing | drive.Newer
+		}
 		w := w0.Clone()
 		put := func(path string, data []byte) {
 			if f, ok := w.Files[path]; ok && bytes.Equal(f.Data, data) {
@@ -675,7 +685,7 @@ func c13OneEdit(x *engine.Ctx, baseIdx int, base c13Base, h0 string, w0 *simfs.W
 		if eb.Prof != nil {
 			put(eb.Prof.Path, RenderCfg(eb.Prof.Path, eb.Prof.Tree()))
 		}
-		res := drive.Run(w, drive.Changed, nil)
+		res := drive.Run(w, strat, nil)
 		x.Transition(1)
 		if res.Panic != "" {
 			x.ViolationCase("C13/panic/"+res.PanicSite, res.Panic, replay)
@@ -690,6 +700,9 @@ func c13OneEdit(x *engine.Ctx, baseIdx int, base c13Base, h0 string, w0 *simfs.W
 			if old {
 				cls += " edited-file-keeps-an-old-time"
 			}
+			if vi >= 2 {
+				cls += " with-generate-expired"
+			}
 			x.ViolationCase(cls, fmt.Sprintf("base %q, edit %v: a generate-changed run does not regenerate the entity (plan %v)", base.Name, names, res.PlanAliases()), replay)
 			continue
 		}
@@ -702,7 +715,7 @@ func c13OneEdit(x *engine.Ctx, baseIdx int, base c13Base, h0 string, w0 *simfs.W
 			}
 			x.ViolationCase("C13/stale-hash-after-reissue "+feature, fmt.Sprintf("base %q, edit %v: after the re-issue the artifact stores hash %s; a fresh generation of the same files stores %s (the old configuration had %s)", base.Name, names, got, h1, h0), replay)
 		}
-		res2 := drive.Run(w, drive.Changed, nil)
+		res2 := drive.Run(w, strat, nil)
 		x.Transition(1)
 		if res2.OK() && res2.Planned(AliasOf(eb.Cfg)) {
 			x.ViolationCase("C13/unchanged-after-reissue-seen-as-changed "+feature, fmt.Sprintf("base %q, edit %v: a second generate-changed run without any further edit plans %v", base.Name, names, res2.PlanAliases()), replay)
